@@ -93,6 +93,11 @@ def build(r, name, n=None, generics=None):
     else:
         spec.extra_enum_attrs = ["#[strum_discriminants(%s)]" % ", ".join(items)]
     gen.add_noise(r, spec, skip=("std_default",))
+    rv = gen.rawify(r, spec, explicit_names=False)
+    if rv is not None and spec.variants.index(rv) not in spec.custom:
+        i = spec.variants.index(rv)
+        spec.custom[i] = "raw-custom-%d" % i
+        rv.extra_attrs.append("#[strum_discriminants(strum(to_string = %s))]" % rs_str(spec.custom[i]))
     spec.tags = ["vis=%s" % spec.dvis, "private" if spec.enum_private else "pub", "name" if spec.dname else "defname"]
     return spec
 
@@ -100,7 +105,7 @@ def build(r, name, n=None, generics=None):
 def glue(spec):
     dn = spec.dname or (spec.name + "Discriminants")
     discs = model.discriminants(spec)
-    names = [v.ident for v in spec.variants]
+    names = [v.ident.replace("r#", "") for v in spec.variants]     # derive(Debug) prints raw identifiers without r#
     ty = spec.ty()
     fieldless = all(v.kind == "unit" for v in spec.variants)
     rty = spec.int_repr or "isize"
@@ -155,6 +160,8 @@ def glue(spec):
     if "Ord" in dd:
         inner += "    for i in 0..all.len() { for j in 0..all.len() { m.expect_eq(\"disc-type\", \"Ord (requested derive)\", \"pair\", &all[i].cmp(&all[j]), &discs[i].cmp(&discs[j]), true); } }\n"
     # repr mirrored
+    if spec.repr == "C":
+        inner += "    m.expect_eq(\"disc-type\", \"size_of::<D>() under repr(C)\", \"repr\", &std::mem::size_of::<%s>(), &std::mem::size_of::<std::os::raw::c_int>(), true);\n" % dn
     if spec.repr is not None and spec.repr != "C":
         inner += "    m.expect_eq(\"disc-type\", \"size_of::<D>()\", \"repr\", &std::mem::size_of::<%s>(), &%s, true);\n" % (
             dn, "8usize" if "align(8)" in spec.repr else "std::mem::size_of::<R>()")
